@@ -1,6 +1,11 @@
 From Coq Require Import List NArith Bool Sorted.
 From V.gen Require Consts.
 From V.Ts Require Import Model Proofs Answers Extra Exact Multi MultiProofs Report ReportProofs ReportDead ReportDeadProofs.
+From V.Mgr Require Model.
+From V.C06 Require Compose08.
+From V.Link Require C06_C08.
+From V.C07 Require Model Compose.
+From V.Link Require C07_C06.
 Import ListNotations.
 Open Scope N_scope.
 From V.C08 Require Import Properties.
@@ -207,3 +212,50 @@ Check (C08_needs_two_per_peer :
   exists tr q,
   feasible 3 env0 (init true 1000 0) tr = true /\
   wf_run false (pevs q (concat (run (init true 1000 0) tr))) = None).
+Check (C08_stream_wellformed_under_manager :
+  forall (L : V.Mgr.Model.limits) (xs : list V.C06.Compose08.xev) tr ka T n0 q,
+  V.C06.Compose08.xtrace L V.C06.Compose08.x0 xs ->
+  filter V.C06.Compose08.is_conn (map snd tr) = V.C06.Compose08.xproj xs ->
+  V.C06.Compose08.feasible_rest env0 (init ka T n0) tr = true ->
+  exists b, wf_run false (pevs q (concat (run (init ka T n0) tr))) = Some b).
+Check (C08_alternation_under_manager :
+  forall (L : V.Mgr.Model.limits) (xs : list V.C06.Compose08.xev) tr ka T n0 q,
+  V.C06.Compose08.xtrace L V.C06.Compose08.x0 xs ->
+  filter V.C06.Compose08.is_conn (map snd tr) = V.C06.Compose08.xproj xs ->
+  V.C06.Compose08.feasible_rest env0 (init ka T n0) tr = true ->
+  alternates false (conn_evs q (concat (run (init ka T n0) tr)))).
+Check (C08_no_panic_under_manager :
+  forall (L : V.Mgr.Model.limits) (xs : list V.C06.Compose08.xev) tr ka T n0,
+  V.C06.Compose08.xtrace L V.C06.Compose08.x0 xs ->
+  filter V.C06.Compose08.is_conn (map snd tr) = V.C06.Compose08.xproj xs ->
+  V.C06.Compose08.feasible_rest env0 (init ka T n0) tr = true ->
+  ~ In OPanic (concat (run (init ka T n0) tr))).
+Check (C08_multi_feasible_split :
+  forall cap tr e m,
+  mfeasible cap e m tr =
+  V.Link.C06_C08.mfeasible_rest e m tr && V.C06.Compose08.conn_feasible cap e (V.Link.C06_C08.m_conn_evs tr)).
+Check (C08_multi_stream_wellformed_under_manager :
+  forall (L : V.Mgr.Model.limits) (xs : list V.C06.Compose08.xev) tr cap cfg n0 q k,
+  V.C06.Compose08.xtrace L V.C06.Compose08.x0 xs ->
+  V.Link.C06_C08.m_conn_evs tr = V.C06.Compose08.xproj xs ->
+  V.Link.C06_C08.mfeasible_rest env0 (minit cap cfg n0) tr = true ->
+  (k < length cfg)%nat ->
+  exists b, wf_run false (pevs q (comp_outs k (mrun (minit cap cfg n0) tr))) = Some b).
+Check (C08_stream_wellformed_on_node :
+  forall (i n : nat) (L : V.Mgr.Model.limits) (es : list V.C07.Model.nev) tr ka T n0 q,
+  (i < n)%nat ->
+  V.C07.Compose.node_env_trace L (V.C07.Model.node_init n) [] [] es ->
+  V.Link.C07_C06.fresh_ids [] es -> V.Link.C07_C06.no_die i es ->
+  filter V.C06.Compose08.is_conn (map snd tr) =
+    V.C06.Compose08.xproj (V.Link.C07_C06.node_xevs i L (V.C07.Model.node_init n) es) ->
+  V.C06.Compose08.feasible_rest env0 (init ka T n0) tr = true ->
+  exists b, wf_run false (pevs q (concat (run (init ka T n0) tr))) = Some b).
+Check (C08_alternation_on_node :
+  forall (i n : nat) (L : V.Mgr.Model.limits) (es : list V.C07.Model.nev) tr ka T n0 q,
+  (i < n)%nat ->
+  V.C07.Compose.node_env_trace L (V.C07.Model.node_init n) [] [] es ->
+  V.Link.C07_C06.fresh_ids [] es -> V.Link.C07_C06.no_die i es ->
+  filter V.C06.Compose08.is_conn (map snd tr) =
+    V.C06.Compose08.xproj (V.Link.C07_C06.node_xevs i L (V.C07.Model.node_init n) es) ->
+  V.C06.Compose08.feasible_rest env0 (init ka T n0) tr = true ->
+  alternates false (conn_evs q (concat (run (init ka T n0) tr)))).
